@@ -326,6 +326,21 @@ func evcKernelQuiet(wfd, rfd int) (quiet bool, outq, inq int) {
 	return ok1 && ok2 && o == 0 && i == 0, o, i
 }
 
+// evcCloseConn closes an event connection the way the library does: from a lambda on the dispatcher goroutine
+// (connEventHandler.close is not meant to run concurrently with the event loop's onWriteReady).
+func evcCloseConn(h *connEventHandler) {
+	done := make(chan struct{})
+	defaultDispatcher.post(func() { h.close(); close(done) })
+	for i := 0; i < 10; i++ {
+		fenceOnce(5 * time.Second)
+		select {
+		case <-done:
+			return
+		default:
+		}
+	}
+}
+
 type evcNullCb struct {
 	got    int64
 	closed int32
@@ -442,10 +457,7 @@ func (q *evcConsumer) onEventData(buf []byte, conn eventConn) error {
 	}
 	q.mu.Unlock()
 	if q.broken {
-		conn.commitRead(len(buf))
-		q.consumed += int64(len(buf))
-		q.prevLen, q.prevConsumed = len(buf), len(buf)
-		atomic.StoreInt64(&q.arrived, q.consumed)
+		q.drainBroken(buf, h)
 		return nil
 	}
 	tail := q.prevLen - q.prevConsumed
@@ -496,9 +508,7 @@ func (q *evcConsumer) onEventData(buf []byte, conn eventConn) error {
 	}
 	atomic.StoreInt64(&q.arrived, q.consumed+int64(len(buf)))
 	if q.broken {
-		conn.commitRead(len(buf))
-		q.consumed += int64(len(buf))
-		q.prevLen, q.prevConsumed = len(buf), len(buf)
+		q.drainBroken(buf, h)
 		return nil
 	}
 
@@ -588,6 +598,21 @@ func (q *evcConsumer) onEventData(buf []byte, conn eventConn) error {
 	return nil
 }
 
+// drainBroken: after a violation the consumer only keeps the connection flowing (never commits more than the handler holds)
+func (q *evcConsumer) drainBroken(buf []byte, h *connEventHandler) {
+	n := h.readEndOff - h.readStartOff
+	if n < 0 {
+		n = 0
+	}
+	if n > len(buf) {
+		n = len(buf)
+	}
+	h.commitRead(n)
+	q.consumed += int64(n)
+	q.prevLen, q.prevConsumed = n, n
+	atomic.StoreInt64(&q.arrived, q.total) // lets the case end
+}
+
 func (q *evcConsumer) onRemoteClose() { atomic.StoreInt32(&q.closed, 1) }
 func (q *evcConsumer) onLocalClose()  { atomic.StoreInt32(&q.closed, 1) }
 
@@ -633,6 +658,9 @@ func evcGenSizes(rng *rand.Rand, budget int64, big bool) []int {
 		default:
 			n = 1<<20 + rng.Intn(2<<20)
 		}
+		if int64(n) > budget-sum {
+			n = int(budget - sum)
+		}
 		out = append(out, n)
 		sum += int64(n)
 		if len(out) > 20000 {
@@ -650,6 +678,9 @@ func evcGenACase(seed int64, idx int, race bool) evcACase {
 	bufs := []int{1, 1, 1, 4096, 16384, 65536, 0}
 	cs.SndBuf = bufs[rng.Intn(len(bufs))]
 	cs.RcvBuf = bufs[rng.Intn(len(bufs))]
+	if cs.Transport == "tcp" {
+		cs.RcvBuf = []int{1, 4096, 16384, 65536, 65536, 0, 0}[rng.Intn(7)]
+	}
 	cs.Reader = "handler"
 	if rng.Intn(4) == 0 {
 		cs.Reader = "raw"
@@ -677,6 +708,23 @@ func evcGenACase(seed int64, idx int, race bool) evcACase {
 		if class == 3 {
 			budget = 11 << 20
 			cs.Prof.HoldTargets = []int{4300 << 10, 8300 << 10}
+		}
+	}
+	if cs.Transport == "tcp" {
+		// loopback tcp with a receive buffer below one segment crawls (persist timer, delayed acks: 15..200 KB/s measured);
+		// those socket-buffer settings are kept, with a transfer small enough to finish
+		switch cs.RcvBuf {
+		case 1:
+			budget, big = 16<<10, false
+		case 4096:
+			budget, big = 48<<10, false
+		case 16384:
+			if budget > 256<<10 {
+				budget, big = 256<<10, false
+			}
+		}
+		if (cs.SndBuf == 4096 || cs.SndBuf == 16384) && budget > 256<<10 {
+			budget, big = 256<<10, false
 		}
 	}
 	cs.sizes = evcGenSizes(rng, budget, big)
@@ -760,7 +808,7 @@ func evcRunACase(col *evcCol, cs evcACase, k *ctl) {
 			rconn.Close()
 			if e != nil {
 				col.inconclusive(name, "File(): "+e.Error())
-				wconn.close()
+				evcCloseConn(wconn)
 				return
 			}
 			rf = f
@@ -773,7 +821,7 @@ func evcRunACase(col *evcCol, cs evcACase, k *ctl) {
 		rfd = rconnH.fd
 		if err := rconnH.setCallback(cons); err != nil {
 			col.inconclusive(name, "setCallback: "+err.Error())
-			wconn.close()
+			evcCloseConn(wconn)
 			return
 		}
 		close(rawDone)
@@ -855,34 +903,44 @@ func evcRunACase(col *evcCol, cs evcACase, k *ctl) {
 		stuck = true
 		col.inconclusive(name, fmt.Sprintf("watchdog: writer stuck after %d of %d bytes, %d arrived", atomic.LoadInt64(&wrote), cs.Total, arrivedNow()))
 	}
+	expectArrive := cs.Total
 	if !stuck && len(viol) == 0 {
+		wmon.mu.Lock()
+		kernelTook := wmon.bytes
+		wmon.mu.Unlock()
+		if kernelTook != cs.Total {
+			violate("every write returned nil for %d bytes in total, but the write syscalls reported %d bytes taken by the kernel", cs.Total, kernelTook)
+			expectArrive = kernelTook
+		}
+	}
+	if !stuck && (len(viol) == 0 || expectArrive != cs.Total) {
 		ok := waitUntil(60*time.Second, func() bool {
 			a := arrivedNow()
-			return a >= cs.Total || a < 0 || (cons != nil && cons.brokenSeen())
+			return a >= expectArrive || a < 0 || (cons != nil && cons.brokenSeen())
 		})
 		if !ok {
 			// not a timing verdict: if the kernel holds nothing and the event loop has handled everything, the bytes are gone
 			fence()
 			quiet, outq, inq := evcKernelQuiet(wconn.fd, rfd)
 			fence()
-			if a := arrivedNow(); a < cs.Total {
+			if a := arrivedNow(); a < expectArrive {
 				if quiet {
-					violate("lost bytes: %d written (every write returned nil), only %d arrived although the kernel queues are empty (outq=%d inq=%d) and the event loop is idle", cs.Total, a, outq, inq)
+					violate("lost bytes: %d handed to the kernel, only %d arrived although the kernel queues are empty (outq=%d inq=%d) and the event loop is idle", expectArrive, a, outq, inq)
 				} else {
-					col.inconclusive(name, fmt.Sprintf("watchdog: %d of %d bytes arrived, kernel still holds data (outq=%d inq=%d)", a, cs.Total, outq, inq))
+					col.inconclusive(name, fmt.Sprintf("watchdog: %d of %d bytes arrived, kernel still holds data (outq=%d inq=%d)", a, expectArrive, outq, inq))
 				}
 			}
 		}
 	}
 	// close the writer; the reader must see the end of the stream and nothing more
-	wconn.close()
+	evcCloseConn(wconn)
 	if cons != nil {
 		if !stuck {
 			if !waitUntil(20*time.Second, func() bool { fenceOnce(5 * time.Second); return atomic.LoadInt32(&cons.closed) == 1 }) {
 				col.count("a: reader did not observe the close in time", 1)
 			}
 		}
-		rconnH.close()
+		evcCloseConn(rconnH)
 		fence()
 	} else {
 		fence() // the close of the writer's descriptor is a posted lambda
@@ -975,6 +1033,7 @@ type evcBCase struct {
 	OpsPer    int    `json:"ops_per_writer"`
 	Profile   string `json:"profile"`
 	MaxPay    int    `json:"max_payload"`
+	Mode      string `json:"mode"` // mixed: slow raw reader, blocking senders dominate; storm: fast reader, fast-path senders spin on the flag
 	Seed      int64  `json:"seed"`
 }
 
@@ -992,6 +1051,7 @@ var evcBProfiles = []evcProfile{
 	{"delay-send-loop", func(k *ctl) { k.set(vpSendLoopBeforeCAS, 300, 100*time.Microsecond, 70) }},
 	{"delay-after-mark", func(k *ctl) { k.set(vpWakeMarked, 300, 100*time.Microsecond, 70) }},
 	{"delay-in-flag", func(k *ctl) { k.set(vpWriteEventEnter, 200, 80*time.Microsecond, 60) }},
+	{"hold-in-enter", func(k *ctl) { k.set(vpConnWriteEnter, 60, 40*time.Microsecond, 60) }},
 	{"gosched-all", func(k *ctl) {
 		k.setAll([]int{vpWriteEventEnter, vpSendLoopBeforeCAS, vpWakeMarked, vpWakeSlow, vpConnWriteEnter, vpConnWritePartial}, 300, 0, 0)
 	}},
@@ -1004,6 +1064,9 @@ func evcGenBCase(seed int64, idx int, race bool) evcBCase {
 	bufs := []int{1, 1, 4096, 16384, 0}
 	cs.SndBuf = bufs[rng.Intn(len(bufs))]
 	cs.RcvBuf = bufs[rng.Intn(len(bufs))]
+	if cs.Transport == "tcp" && cs.RcvBuf != 0 {
+		cs.RcvBuf = 65536 // loopback tcp crawls with a receive buffer below one segment (see (a)); the send buffer stays small
+	}
 	cs.Writers = []int{2, 3, 4, 8, 16, 32}[rng.Intn(6)]
 	cs.OpsPer = 1200/cs.Writers + rng.Intn(40)
 	if race {
@@ -1011,6 +1074,18 @@ func evcGenBCase(seed int64, idx int, race bool) evcBCase {
 	}
 	cs.Profile = evcBProfiles[rng.Intn(len(evcBProfiles))].name
 	cs.MaxPay = []int{2000, 20000, 200000}[rng.Intn(3)]
+	cs.Mode = "mixed"
+	if idx%3 == 2 {
+		cs.Mode = "storm"
+		cs.Writers = []int{8, 16, 32}[rng.Intn(3)]
+		cs.OpsPer = 24000 / cs.Writers
+		if race {
+			cs.OpsPer /= 4
+		}
+		cs.SndBuf = []int{0, 65536, 16384}[rng.Intn(3)]
+		cs.RcvBuf = []int{0, 65536}[rng.Intn(2)]
+		cs.MaxPay = 2000
+	}
 	return cs
 }
 
@@ -1277,6 +1352,9 @@ func evcRunBCase(col *evcCol, cs evcBCase) {
 			if rng.Intn(3) == 0 {
 				chunk = 1 + rng.Intn(512)
 			}
+			if cs.Mode == "storm" {
+				chunk = len(buf)
+			}
 			n, err := srv.Read(buf[:chunk])
 			if n > 0 {
 				pmu.Lock()
@@ -1290,7 +1368,7 @@ func evcRunBCase(col *evcCol, cs evcBCase) {
 				}
 				return
 			}
-			if rng.Intn(3) == 0 {
+			if cs.Mode != "storm" && rng.Intn(3) == 0 {
 				time.Sleep(time.Duration(10+rng.Intn(300)) * time.Microsecond)
 			}
 		}
@@ -1325,6 +1403,9 @@ func evcRunBCase(col *evcCol, cs evcBCase) {
 				return
 			}
 			paySize := func() int {
+				if cs.Mode == "storm" {
+					return 1 + rng.Intn(120)
+				}
 				switch r := rng.Intn(100); {
 				case r < 50:
 					return 1 + rng.Intn(200)
@@ -1339,7 +1420,24 @@ func evcRunBCase(col *evcCol, cs evcBCase) {
 			<-start
 			var mine []issued
 			for op := 0; op < cs.OpsPer; op++ {
-				switch r := rng.Intn(100); {
+				r := rng.Intn(100)
+				if cs.Mode == "storm" {
+					// mostly non-blocking fast-path senders; writers 1..3 keep sending header+body and stream data
+					x := rng.Intn(100)
+					switch {
+					case w < 3 && x < 60:
+						r = 70 + rng.Intn(20) // header+body
+					case w < 3 && x < 80:
+						r = 50 + rng.Intn(20) // stream data
+					case x < 45:
+						r = 0 // polling
+					case x < 97:
+						r = 30 // hot restart
+					default:
+						r = 95 // close
+					}
+				}
+				switch {
 				case r < 30: // polling event: the peer (played here) had marked the queue not-working
 					atomic.StoreUint32(s.queueManager.sendQueue.workingFlag, 0)
 					_ = s.wakeUpPeer()
@@ -1538,7 +1636,7 @@ func evcRunBCase(col *evcCol, cs evcBCase) {
 	col.r.Evals++
 	col.mu.Unlock()
 	if slow > 0 || atomic.LoadInt64(&flagTaken) > 0 {
-		col.nontrivial(fmt.Sprintf("b/%s/%d/%s/w%016x/%s", cs.Transport, cs.Writers, cs.Profile, pat, k.signature()))
+		col.nontrivial(fmt.Sprintf("b/%s/%s/%d/%s/w%016x/%s", cs.Mode, cs.Transport, cs.Writers, cs.Profile, pat, k.signature()))
 	}
 	if cs.Idx < 2 {
 		col.sample(map[string]interface{}{"case": cs, "events": evN, "slow_path": slow, "send_loop_contended": atomic.LoadInt64(&flagTaken), "eagain": eag})
